@@ -404,3 +404,77 @@ def who_may_close_check(ch: Any, rule: str) -> int:
                          '%s closes %s outside the teardown callbacks %s: the work stays alive, its closed descriptor stays registered with the executor\'s selector (only _cleanup unregisters), '
                          'and the next connection that is given the same descriptor number is never polled' % (fn.qualname, chain, list(TEARDOWN_CALLBACKS)))
     return n
+
+
+def upstream_flush_check(ch: Any, rule: str) -> int:
+    """When the executor reports the upstream descriptor writable (`<upstream fd> in <writables parameter>` holds on the path)
+    and nothing on the path says its buffer is empty, upstream.flush() is called.  Found by shape: every method in
+    proxy/http/** and proxy/core/base/** that tests `self.upstream.connection.fileno() in <parameter>` for a parameter
+    named w / writables."""
+    from ..cfg import cfg_of
+    from ..flow import Sym, fpaths
+    prog = ch.prog
+    n = 0
+    for fn in prog.all_functions('proxy'):
+        mn = fn.module.name
+        if fn.cls is None or not (mn.startswith('proxy.http.') or mn.startswith('proxy.core.base')):
+            continue
+        wparams = [p_ for p_ in fn.params if p_ in ('w', 'writables')]
+        if not wparams:
+            continue
+        wp = wparams[0]
+        atom = 'self.upstream.connection.fileno() in %s' % wp
+        if not any(isinstance(c, ast.Compare) and len(c.ops) == 1 and isinstance(c.ops[0], (ast.In, ast.NotIn)) and norm(c.comparators[0]) == wp for c in walk_no_nested(fn.node)):
+            continue
+        g = cfg_of(fn, prog, exc_edges=False)
+        relevant = 0
+        bad = None
+        for p in fpaths(g):
+            ch.paths += 1
+            fd = allfacts(p)
+            if fd.get(atom) is not True:
+                continue
+            if fd.get('self.upstream.has_buffer()') is False or fd.get('self.upstream.closed') is True or fd.get('self.upstream') is False:
+                continue
+            relevant += 1
+            sym = Sym(p)
+            flushed = False
+            for i, nd, lab in p.executed():
+                if nd.ast is None or nd.kind not in ('stmt', 'test'):
+                    continue
+                for c in walk_no_nested(nd.ast):
+                    if isinstance(c, ast.Call) and isinstance(c.func, ast.Attribute) and c.func.attr == 'flush' and norm(sym.value(c.func.value, i)) == 'self.upstream':
+                        flushed = True
+            if not flushed:
+                bad = ('the upstream descriptor is reported writable (and its buffer is not known to be empty) on a path that never calls self.upstream.flush(): bytes queued for the '
+                       'upstream stay queued, the write interest stays set and the loop spins without ever delivering them', p.describe(20))
+        if relevant == 0:
+            continue
+        n += 1
+        ch.check(bad is None, rule, fn, 'flush upstream when writable', 'upstream.flush() on all %d path(s) where its descriptor is writable' % relevant, bad[0] if bad else '', witness=bad[1] if bad else None)
+    return n
+
+
+def loop_containing_call(fn: FuncInfo, callee: str) -> Optional[ast.While]:
+    """the outermost `while` of fn whose body contains a call of `callee` (dotted name) -- `while True:` or a flag-controlled loop alike"""
+    for n in walk_no_nested(fn.node):
+        if isinstance(n, ast.While) and any(isinstance(c, ast.Call) and attr_chain(c.func) == callee for c in ast.walk(n)):
+            return n
+    return None
+
+
+def leaves_flag_loop(loop: ast.While, path: Any) -> bool:
+    """a way round a flag-controlled loop (`while keep_running:`) on which the flag was set to a false constant is the loop's exit, not an iteration"""
+    t = loop.test
+    neg = False
+    if isinstance(t, ast.UnaryOp) and isinstance(t.op, ast.Not):
+        t, neg = t.operand, True
+    if not isinstance(t, ast.Name):
+        return False
+    val = None
+    for i, st in path.stmts():
+        if isinstance(st, ast.Assign) and len(st.targets) == 1 and isinstance(st.targets[0], ast.Name) and st.targets[0].id == t.id and isinstance(st.value, ast.Constant):
+            val = bool(st.value.value)
+    if val is None:
+        return False
+    return (val is False) if not neg else (val is True)
